@@ -82,7 +82,7 @@ func buildChunks(c *hx.Ctx) []chunk {
 		out = append(out, chunk{elem: e, kind: "boolbytes"})
 	}
 	// wide types
-	per := c.Pick(10000, 1500000)
+	per := c.Pick(10000, 4000000)
 	nch := c.Pick(4, 8)
 	for _, t := range []refipfix.Type{refipfix.U32, refipfix.I32, refipfix.U64, refipfix.I64, refipfix.F32, refipfix.F64, refipfix.DTSec, refipfix.DTMilli, refipfix.Mac, refipfix.IPv4, refipfix.IPv6} {
 		for _, e := range pick(t, false) {
